@@ -86,8 +86,19 @@ claim("C13",
  "Signing is an uninterpreted function of (message hash, secret key) whose result is never the null signature; wallet entries with different addresses hold different keys (C17). Outside: real key derivation, Visor.WalletSignTransaction wiring, verification of the produced signatures by the real curve code (follows from A-SIG and the entry invariant).",
  "DESIGN.md §4 C13")
 
+
+claim("C21",
+ "Bounded symbolic check of the generated wire codecs: for IPAddr, AnnounceBlocks, GetBlocks, Disconnect, AnnounceTxns, GetTxns, GivePeers and Introduction messages every byte string up to the listed lengths (free content) either fails to decode exactly or re-encodes to the same bytes, encodeSize equals the encoded length and no decoder panics; coin.Transaction likewise for the C09 length set; for the five length-limited messages a length prefix up to the tagged maximum (512/256/256/256/128) decodes completely and maximum+1 is refused with ErrMaxLenExceeded by decoder and encoder alike.",
+ "Reduced: the comparison with the reflection-based reference encoder (same bytes / same failure kind on every input) is not encoded in this revision (no reflect support in the executor), and the block-database / history codecs are not covered; lengths beyond the listed bounds are outside. One listed finding: an explicitly empty trailing omitempty field decodes but is not canonical.",
+ "DESIGN.md §4 C21 (H1, maxlen built; H3 pending)")
+
+claim("C25",
+ "Bounded symbolic check of peer introduction: IntroductionMessage.Verify on Extra of every length 0..50 and 75..78, 110 with free bytes and free mirror/version/key: accepted implies foreign mirror, supported version, the first 33 extra bytes equal this network's blockchain key, decoded verification parameters in the valid ranges and recorded as sent, a parsable user agent; no Extra makes it panic. The gate in Daemon.onMessageEvent, driven with a connection in every state (unknown, pending, connected, introduced), matching or foreign connection id and a message of every gate class: handlers run only for an introduced connection or for introduction / disconnect / peer-list messages; any other message before introduction disconnects with ErrDisconnectNoIntroduction; messages for unknown or replaced connections are dropped.",
+ "The reflection decoder's results for the 9 parameter bytes and the length-prefixed user agent follow its documented format (model functions), user-agent parsing is an arbitrary verdict, message handlers and Daemon.Disconnect are recorders. Outside: IntroductionMessage.process wiring to connectionIntroduced, the pool and timers.",
+ "DESIGN.md §4 C25")
+
 _pending = "check not built yet in this revision (work in progress; see DESIGN.md §4)"
-for p in ["C02","C05","C06","C07","C10","C14","C16","C17","C19","C20","C21","C25","C26","C27","C30","C33"]:
+for p in ["C02","C05","C06","C07","C10","C14","C16","C17","C19","C20","C26","C27","C30","C33"]:
     na(p, _pending)
 na("C08", "crash points inside boltdb's mmap/page commit and fsync ordering plus the goroutine/channel WalkChain pipeline cannot be encoded by an SSA->SMT executor (no I/O ordering or scheduling semantics)")
 na("C32", "race freedom and shutdown under all goroutine schedules: the encoder has no thread/channel semantics; the race detector is a dynamic technique outside this family")
